@@ -36,7 +36,7 @@ Definition expected_body_cv_c : list (string * string) := [
   ("nsync_cv_wait_with_deadline_generic", "b5e35bfc352bcd6b6c8c");
   ("void_mu_lock", "bd228afe80152268de76");
   ("void_mu_unlock", "b78a784d0866c722ee8d");
-  ("wake_waiters", "6279abafc78952f80cb4")].
+  ("wake_waiters", "969a7e1c56ff3ab7f3f2")].
 
 Definition expected_body_debug_c : list (string * string) := [
   ("emit_c", "89235dbdd916035c1cb1");
